@@ -39,3 +39,36 @@ def right_parity_degree(rng, name, lo, hi):
 
 def enc_args(a):
     return {k: (hexf(v) if isinstance(v, float) else v) for k, v in a.items()}
+
+
+def bessel_table(x, nmax):
+    """J_0(x) .. J_nmax(x) by Miller's backward recurrence (normalised by J_0 + 2 sum J_2k = 1)."""
+    N = int(max(nmax, x)) + 40
+    N += N % 2
+    jp, jc = 0.0, 1e-280
+    vals = [0.0] * (N + 2)
+    vals[N] = jc
+    for n in range(N, 0, -1):
+        jm = (2 * n / x) * jc - jp
+        jp, jc = jc, jm
+        vals[n - 1] = jc
+        if abs(jc) > 1e250:
+            vals = [v * 1e-250 for v in vals]
+            jp, jc = jp * 1e-250, jc * 1e-250
+    norm = vals[0] + 2 * sum(vals[2:N + 1:2])
+    return [v / norm for v in vals[:nmax + 1]]
+
+
+def taus_near_inrange_bessel_zero(rng, odd, eps, count, lo=8.0, hi=45.0):
+    """tau values at which a Jacobi-Anger coefficient 2 J_n(tau) of the generator's parity with n well inside the series (n <= 0.6 tau)
+    is below eps/10: the series is not monotone there, so a truncation rule keyed on one small term would cut it in the middle."""
+    out = []
+    tries = 0
+    while len(out) < count and tries < 20000:
+        tries += 1
+        tau = round(rng.uniform(lo, hi), 2)
+        tab = bessel_table(tau, int(0.6 * tau) + 1)
+        ns = [n for n in range(2 + (1 if odd else 0), int(0.6 * tau) + 1, 2) if abs(2 * tab[n]) < 0.1 * eps]
+        if ns:
+            out.append(tau)
+    return out
